@@ -32,7 +32,7 @@ for s in sorted(os.listdir(SD)):
     m = re.search(r"^##[^\n]*(?:why|break)[^\n]*\n(.*?)(?=^## |\Z)", notes, re.M | re.S | re.I)
     if m:
         why = " ".join(m.group(1).split())[:900]
-    files = sorted(set(re.findall(r"^\+\+\+ b/(\S+)", open(os.path.join(d, "patch.diff")).read(), re.M)))
+    files = sorted(set(re.findall(r"^(?:\+\+\+|---) [ab]/(\S+)", open(os.path.join(d, "patch.diff")).read(), re.M)))
     if re.match(r"C\d\d-\d", s):
         meta.update({
             "seed": s, "kind": "seeded change from a fresh sub-agent (given only the property text and a scratch worktree)",
